@@ -270,11 +270,14 @@ def build(c: dict, seed: int, unsupported: Optional[Tuple[str, Any]] = None, pro
         has_b = c["bias"] and c["weight"]
         ts = [T(c["x"])] + ([T(ns, 1)] if c["weight"] else []) + ([T(ns, 2)] if has_b else [])
 
-        def mk(f):
+        # normalized_shape as a list, a tuple or a torch.Size (all accepted by the torch counterpart)
+        ns_u = [list(ns), tuple(ns), torch.Size(ns)][c["seedA"] % 3]
+
+        def mk(f, shape):
             def g(x, w=None, b=None):
-                return f(x, ns, w, b, c["eps"])
+                return f(x, shape, w, b, c["eps"])
             return g
-        return Built(mk(U.layer_norm), mk(F.layer_norm), ts, ["input", "weight", "bias"][: len(ts)], [])
+        return Built(mk(U.layer_norm, ns_u), mk(F.layer_norm, tuple(ns)), ts, ["input", "weight", "bias"][: len(ts)], [])
     if op == "rms_norm":
         ns = c["ns"]
         ts = [T(c["x"])] + ([T(ns, 1)] if c["weight"] else [])
@@ -283,7 +286,8 @@ def build(c: dict, seed: int, unsupported: Optional[Tuple[str, Any]] = None, pro
         def r(x, w=None):
             y = x / torch.sqrt(x.pow(2).mean(dims, keepdim=True) + c["eps"])
             return y * w if w is not None else y
-        return Built(lambda x, w=None: U.rms_norm(x, tuple(ns), w, c["eps"]), r, ts, ["input", "weight"][: len(ts)], [])
+        ns_u = [tuple(ns), torch.Size(ns)][c["seedA"] % 2]   # (U.rms_norm is annotated Tuple[int, ...]: a list is outside its documented domain)
+        return Built(lambda x, w=None: U.rms_norm(x, ns_u, w, c["eps"]), r, ts, ["input", "weight"][: len(ts)], [])
     if op == "add":
         sc = c["scalar"]
         if c["a"] == "scalar":
